@@ -195,7 +195,9 @@ bool BotanECDH::deriveKey(SymmetricKey **ppSymmetricKey, PublicKey* publicKey, P
 	ByteString secret;
 
 	// We compensate that Botan removes leading zeros
-	int size = ((BotanECDHPublicKey *)publicKey)->getOrderLength();
+	// The secret is the x-coordinate of a point and has the length of a field
+	// element, which is not the length of the group order on every curve
+	int size = priv->domain().get_p_bytes();
 	int keySize = sk.length();
 	secret.wipe(size);
 	memcpy(&secret[0] + size - keySize, sk.begin(), keySize);
